@@ -161,3 +161,16 @@ func reportRace(site1, k1, site2, k2 string, t1, t2 int) {
 	panic(failure{"race", "race:" + a + "/" + b,
 		fmt.Sprintf("data race: %s at %s by T%d is unordered with %s at %s by T%d", k1, site1, t1, k2, site2, t2)})
 }
+
+// RR / RW are the calls inserted by vrewrite -race.
+func RR[T any](p *T, site string) {
+	if raceOn() {
+		RaceRead(unsafe.Pointer(p), site)
+	}
+}
+
+func RW[T any](p *T, site string) {
+	if raceOn() {
+		RaceWrite(unsafe.Pointer(p), site)
+	}
+}
